@@ -36,7 +36,7 @@ type Cfg struct {
 var (
 	// PairLetters are letters whose simple case-fold orbit is exactly an upper/lower pair.
 	PairLetters []rune
-	baseLetters = []rune("abcxyzABX019 _-\n")
+	baseLetters = []rune("abcxyzABXZ019 _-\n")
 	wideLetters = []rune{'é', 'É', 'λ', 'Λ', 'ж', 'Ж', '日', 0x0301, 0x1F600, 'ÿ'}
 )
 
